@@ -9,7 +9,7 @@ from vf.scenario import make_searcher, requiet, scenario_context
 
 PROPERTY = "C13"
 RULE = (
-    "Pairs of fresh U1 searchers with the default RuleDB, finite universes (a Peel among the initial strategies) "
+    "Pairs of fresh U1 searchers with the default RuleDB, finite universes (a Peel among the initial strategies; kinds: relabelled class, two packs, same, random, and 'fold' = mirror-symmetric class searched with and without a letter symmetry) "
     "and atom-only verification - the documented preconditions of ParallelInfo - whose packs contain unary "
     "equivalences as inferral/initial strategies and letter symmetries, so that the start class is frequently not "
     "its own equivalence representative; pairs are (class, relabelled class), (class, same class with another "
@@ -112,7 +112,7 @@ def run_case(case, ctx):
 
 @st.composite
 def pair_case(draw, tier="quick"):
-    kind = draw(st.sampled_from(["relabel", "relabel", "two-packs", "same", "random"]))
+    kind = draw(st.sampled_from(["relabel", "relabel", "two-packs", "same", "random", "fold", "fold"]))
 
     def base():
         case = draw(
@@ -139,6 +139,40 @@ def pair_case(draw, tier="quick"):
         b["pack"] = dict(base()["pack"], ver=a["pack"]["ver"])
     elif kind == "same":
         b = dict(a)
+    elif kind == "fold":
+        # One universe is a folding of the other: the patterns (and statistics) are closed
+        # under exchanging the first two letters; the first searcher identifies mirror
+        # images through a letter symmetry, the second does not, so one label of the first
+        # universe has two partners in the second.
+        import copy
+
+        a = copy.deepcopy(a)
+        alphabet = a["class"][0]
+        if len(alphabet) <= 2 and draw(st.integers(0, 2)) > 0:
+            alphabet = "abc"  # a third letter outside the exchanged pair: more classes with two partners
+        if len(alphabet) >= 2:
+            tau = {alphabet[0]: alphabet[1], alphabet[1]: alphabet[0]}
+            mirror = lambda w: "".join(tau.get(l, l) for l in w)  # noqa: E731
+            pats = sorted(set(a["class"][2]) | {mirror(p) for p in a["class"][2]})
+            prefix = a["class"][1]
+            if any(p in prefix for p in pats):
+                prefix = ""
+            stats = ["".join(sorted(set(s_) | set(mirror(s_)))) for s_ in a["class"][4]]
+            a["class"] = [alphabet, prefix, pats, 0, stats, a["class"][5], 0]
+            swap = ["LetterSwap", {"shift": 1} if len(alphabet) == 2 else {"shift": 0, "swap": True}]
+            strip = lambda lst: [d for d in lst if d[0] != "LetterSwap"]  # noqa: E731
+            b = copy.deepcopy(a)
+            for key in ("initial", "inferral", "symmetries"):
+                b["pack"][key] = strip(b["pack"][key])
+                a["pack"][key] = strip(a["pack"][key])
+            b["pack"]["expansion"] = [strip(ss) or [draw(gen.expand_desc())] for ss in b["pack"]["expansion"]]
+            a["pack"]["expansion"] = [strip(ss) or [draw(gen.expand_desc())] for ss in a["pack"]["expansion"]]
+            where = draw(st.sampled_from(["symmetries", "symmetries", "initial", "inferral"]))
+            a["pack"][where] = a["pack"][where] + [swap]
+            if draw(st.booleans()):
+                a, b = b, a
+        else:
+            b = dict(a)
     else:
         b = base()
     eqpath = draw(st.booleans())
